@@ -111,7 +111,7 @@ let () =
              let cn = ask p 2 in
              log := (p, 2, cn) :: !log;
              let sn = function AN x -> string_of_n x | AC c -> string_of_int c | AB b -> if b then "1" else "0" in
-             Buffer.add_string buf (Printf.sprintf " %d%s:L=%s,S=%s,ev=%s,cn=%s" idx (if ng then "-" else "+") (sn cl) (sn cs) ev (sn cn)))
+             Buffer.add_string buf (Printf.sprintf " %d%s:L=%s,S=%s,ev=%s,cn=%s" idx (if ng then "-" else "+") (sn cl) (sn cs) ev (if comp = "1" then sn cn else "*")))
              [false; true]
          done;
          (* the replay pass of the harness: every query again, in reverse order *)
